@@ -145,26 +145,26 @@ for _pid in CHECKS:      # read from the property modules, so the manifest follo
     if _u:
         UNITS[_pid] = ", ".join(_u)
 NOTE_NOW = {
- "C01": "exec() of generated code and the engine are validated by the differential run only; CPython slice.indices/range are read by hand-written definitions compared with the interpreter.",
- "C02": "Targets are linear (known finding F9, exact filter); FSM lowering, Case pattern normalisation and the settle loop are in the model; which domains get a Switch and Module's context-manager bookkeeping are validated only; syntactic acyclicity => termination ranking not proved.",
- "C03": "Renamer at the root / merging domains and controls wider than 1 bit are validated only; F7 was repaired in /repo (574e1db) and the own-edge theorem is stated at full strength.",
- "C04": "Layer B is per design (translation validation against the RTLIL semantics of RtlilSem.v, an assumption: no Yosys offline); emit_assignment_list completeness and _ir.emit_assign are not modelled. Known finding: part-select signed $shift reading.",
+ "C01": "exec() of generated code and the engine are validated by the differential run only; the simulator's RHS code templates are regenerated (unit pyrtl_rhs) except on_SwitchValue/_emit_switch; CPython slice.indices/range are read by hand-written definitions compared with the interpreter.",
+ "C02": "Targets are linear (known finding F9, exact filter); the simulator's LHS/statement code generator is regenerated (unit pyrtl_lhs) except _emit_switch and the whole-process fold; FSM lowering, Case pattern normalisation and the settle loop are in the model; which domains get a Switch and Module's context-manager bookkeeping are validated only.",
+ "C03": "Renamer at the root / merging domains and controls wider than 1 bit are validated only; late-bound ClockSignal/ResetSignal resolution over hierarchies with shadowing domains is modelled (Model/DomScope.v) and proved equal to lexical scoping; two defects repaired in /repo (574e1db, 15105ec).",
+ "C04": "Layer B is per design (translation validation against the RTLIL semantics of RtlilSem.v, an assumption: no Yosys offline); NetlistEmitter.emit_assign/extend/emit_match are regenerated (unit ir), emit_stmt/emit_operator are not. Known finding: part-select signed $shift reading.",
  "C05": "Aliased targets (F9) are compared model-vs-code only.",
- "C06": "driver_check_iff is proved over a finite family of 40,950 designs only (bound stated in the theorem); the early-conflict and cycle clauses are unbounded. Known findings S2, zero-width driver vs input port.",
- "C07": "translation_validation: structural well-formedness is decided per emitted document by a checker proved sound and complete w.r.t. its specification; the quantifier over designs is explored. Four open findings (port name collision, whitespace in names, field-wire collision, dotted module names).",
+ "C06": "driver_check_iff, the early-conflict and cycle clauses are unbounded; the zero-width-driver defect was repaired in /repo (f667bed). Known finding S2 (deliberate over-approximation of the early DSL check).",
+ "C07": "translation_validation: structural well-formedness is decided per emitted document by a checker proved sound and complete w.r.t. its specification; the quantifier over designs is explored. Constants, escapes, attribute/parameter/wire/memory lines and name allocation of back/rtlil.py are regenerated (unit rtlil) and proved to print the concrete syntax of the model's parsed values. Five open findings (port name collision, whitespace in names, field-wire collision, dotted module names, partially used IOPort).",
  "C08": "Process replacement and coroutine mechanics are validated by the differential run (6-40 permuted set orders per scenario). Known finding S1.",
- "C09": "Byte-identical RTLIL / traces / plans are explored across 11-29 PYTHONHASHSEED values and repeated runs; theorems cover the order-independence of the modelled steps, naming, digest, archive/extract and reset.",
+ "C09": "Byte-identical RTLIL / traces / plans are explored across 11-29 PYTHONHASHSEED values, repeated runs and two conversions of one and the same design object; theorems cover the order-independence of the modelled steps, naming, digest, archive/extract, reset and that prepare leaves user-held fragments unchanged (defect repaired in /repo, 7ce2038).",
  "C10": "CPython range length/indexing is modelled (validated).",
- "C11": "RTLIL agreement is checked by running the converted design under RtlilSem.v where RTLIL is defined.",
+ "C11": "RTLIL agreement is checked by running the converted design under RtlilSem.v where RTLIL is defined; the simulator's memory-port code is regenerated (unit mem); lib/memory.py is tied by the differential run only (incl. reuse of one design by a reset or a second simulator).",
  "C12": "Elaboration is tied for all widths/depths by the fifo translator unit; the simulator by the differential run.",
- "C13": "Known finding F4 (depth 1 does not elaborate); reset behaviour beyond the property text is recorded as observations only.",
- "C14": "Which of several coexisting defects is reported first, and JSON-schema validation, are validated only. Three known findings.",
+ "C13": "Known finding F4 (depth 1 does not elaborate; its index condition is regenerated from the source); the two-clock wiring of AsyncFIFO.elaborate is tied by the differential run only; reset behaviour beyond the property text is recorded as observations only.",
+ "C14": "Which of several coexisting defects is reported first, JSON-schema validation, is_compliant and connect() as code are validated only (their models are hand-written). Two known findings (arrays of interfaces under flip / connect); the init-normalisation defect was repaired in /repo (8bdaf9d).",
  "C15": "~ under EJECT/KEEP is partial; CPython enum.Flag behaviour validated against the interpreter. Known findings: signed enum fields, wide flag invert.",
  "C16": "Published table committed under /verif/data; live catalog.py compared by the run. Known finding: even polynomials give a second matching trailer.",
- "C17": "ResetSynchronizer is an alias of AsyncFFSynchronizer in the code and in the model.",
- "C18": "Known finding C18-SIM-LHS-ALIAS (exact filter: the observation must equal the model of the simulator's read-modify-write lowering).",
- "C19": "Rendered constraint files are compared line by line in file order (validated).",
- "C20": "CPython str.format rendering validated against the interpreter. Known finding: brace fill.",
+ "C17": "ResetSynchronizer is an alias of AsyncFFSynchronizer in the code and in the model; all four elaborate methods are regenerated by symbolic execution (unit cdc); the event framing of the simulator is the unit's trusted reading.",
+ "C18": "Known finding C18-SIM-LHS-ALIAS (exact filter: the observation must equal the model of the simulator's read-modify-write lowering). Port algebra and constructor checks are regenerated (unit io); Buffer/FFBuffer.elaborate beyond the inversion constant are tied by the differential run only.",
+ "C19": "Rendered constraint files are compared line by line in file order (validated); the bodies of merge_options/resolve are hand-modelled (parameters of the regenerated request).",
+ "C20": "CPython str.format rendering validated against the interpreter; the format-spec regex is regenerated and equal to the model's parser on a stated finite string domain only (…_bounded_partial), the checks after the match for all inputs. Known finding: brace fill.",
 }
 
 READY = [l.strip() for l in open(f"{V}/tools/ready.txt") if l.strip() and not l.startswith("#")]
